@@ -18,8 +18,15 @@
 //!   (Combine sol sol)              Solution::combine -> sol
 //!   (WithPrio dg sol prio sol prio) with_priorities -> (Pair sol prio)
 //!   (Inputs dg sol)                calculate_inputs -> [term ...]
+//!   (MakeSolution binders [event..] [[strand subst]..])
+//!                                  AggregateOps::make_solution over a scripted answer stream -> (Some sol) | None
+//!                                  event ::= (EAnswer csubst [constraint..] ambiguous) | EFloundered | EQuantum;
+//!                                  peek looks at the first remaining event, next removes it, an exhausted script is
+//!                                  NoMoreSolutions; any_future_answer ranges over the remaining answers, then the strands
 //!   (Solve "program" "goal")       the SLG solver end to end -> sol | NoSolution
+use chalk_engine::context::{AnswerResult, AnswerStream};
 use chalk_engine::slg::verif as h2;
+use chalk_engine::CompleteAnswer;
 use chalk_integration::db::ChalkDatabase;
 use chalk_integration::interner::ChalkIr;
 use chalk_integration::lowering::lower_goal;
@@ -182,6 +189,69 @@ fn rename_fresh(s: &Sexp, nfresh: u64, map: &mut Vec<u64>, kinds: &mut Vec<Sexp>
     s.clone()
 }
 
+enum Event { Answer(CompleteAnswer<ChalkIr>), Floundered, Quantum }
+
+struct Script { events: Vec<Event>, pos: usize, strands: Vec<Substitution<ChalkIr>> }
+
+impl Script {
+    fn at(&self) -> AnswerResult<ChalkIr> {
+        match self.events.get(self.pos) {
+            None => AnswerResult::NoMoreSolutions,
+            Some(Event::Answer(a)) => AnswerResult::Answer(a.clone()),
+            Some(Event::Floundered) => AnswerResult::Floundered,
+            Some(Event::Quantum) => AnswerResult::QuantumExceeded,
+        }
+    }
+}
+
+impl AnswerStream<ChalkIr> for Script {
+    fn peek_answer(&mut self, _: impl Fn() -> bool) -> AnswerResult<ChalkIr> { self.at() }
+    fn next_answer(&mut self, _: impl Fn() -> bool) -> AnswerResult<ChalkIr> {
+        let r = self.at();
+        if self.pos < self.events.len() { self.pos += 1; }
+        r
+    }
+    fn any_future_answer(&self, test: impl Fn(&Substitution<ChalkIr>) -> bool) -> bool {
+        for e in &self.events[self.pos.min(self.events.len())..] {
+            if let Event::Answer(a) = e {
+                if test(&a.subst.value.subst) { return true; }
+            }
+        }
+        self.strands.iter().any(|s| test(s))
+    }
+}
+
+fn event(s: &Sexp) -> R<Event> {
+    let a = s.args();
+    match s.head() {
+        Some("EAnswer") if a.len() == 3 => {
+            let c = csubst(&a[0])?;
+            let cs: R<Vec<_>> = a[1].as_list()?.iter().map(constraint).collect();
+            Ok(Event::Answer(CompleteAnswer {
+                subst: Canonical { binders: c.binders, value: ConstrainedSubst { subst: c.value, constraints: Constraints::from_iter(I, cs?) } },
+                ambiguous: a[2].as_bool()?,
+            }))
+        }
+        Some("EFloundered") => Ok(Event::Floundered),
+        Some("EQuantum") => Ok(Event::Quantum),
+        _ => Err(format!("event {}", s)),
+    }
+}
+
+fn make_solution(root: &Sexp, events: &Sexp, strands: &Sexp) -> R<Sexp> {
+    let canonical = root_goal(root)?;
+    let universes = canonical.binders.iter(I).map(|b| b.skip_kind().counter).max().map(|m| m + 1).unwrap_or(1);
+    let ucanonical = UCanonical { canonical, universes };
+    let ev: R<Vec<_>> = events.as_list()?.iter().map(event).collect();
+    let st: R<Vec<_>> = strands.as_list()?.iter().map(|x| to_subst(x.as_list()?)).collect();
+    let script = Script { events: ev?, pos: 0, strands: st? };
+    let db = ChalkDatabase::with("", SolverChoice::slg_default());
+    Ok(match h2::make_solution(&db, &ucanonical, script, || true) {
+        Some(s) => Sexp::app("Some", vec![solution_sx(&s)]),
+        None => Sexp::atom("None"),
+    })
+}
+
 fn solve(text: &str, goal: &str) -> R<Sexp> {
     let db = ChalkDatabase::with(text, SolverChoice::slg_default());
     let program = db.program_ir().map_err(|e| format!("program: {}", e))?;
@@ -244,6 +314,7 @@ fn main() {
                 let dg = to_domain_goal(&a[0])?;
                 Ok(Sexp::List(h2r::calculate_inputs(I, &dg, &solution(&a[1])?).iter().map(garg_sx).collect()))
             }
+            "MakeSolution" => make_solution(&a[0], &a[1], &a[2]),
             "Solve" => solve(a[0].as_str()?, a[1].as_str()?),
             o => Err(format!("unknown op {}", o)),
         }
